@@ -9,7 +9,7 @@ from .c01 import universe_consts
 
 PROP = "C02"
 TRACE = "TraceStore"
-MUT = {"add", "addN", "remove", "graph", "remove_graph"}
+MUT = {"add", "addN", "addN_view", "remove", "graph", "remove_graph"}
 
 
 def execute(job):
@@ -31,6 +31,10 @@ def decorate(h, i):
             e["how"] = "obj" if k in (0, 2) else "id"
         if e["op"] == "remove_graph":
             e["how"] = "id" if k % 2 else "obj"
+        if e["op"] == "addN" and k in (1, 3) and (i + j) % 3:
+            # the same quads through the bulk interface of the view of one of the graphs they name (or of another graph)
+            names = sorted({q[3] for q in e["qs"]})
+            e["op"], e["g"], e["how"] = "addN_view", (names[(i + j) % len(names)] if (i + j) % 5 else "g1"), ("batch" if k == 3 else "direct")
         out.append(e)
     return out
 
